@@ -42,88 +42,95 @@ func ruleCmpDir(p *Prog, r *Result) {
 				nScalar++
 				lv, rv, rev := ssa.Value(fn.Params[1]), ssa.Value(fn.Params[2]), ssa.Value(fn.Params[3])
 				key := p.FName(fn)
-				sawMinus, bad := false, ""
-				// the NaN region: blocks only reached over the true edge of a test `x != x` on an operand. What the
-				// comparator answers there is its choice of a place for NaN (CMPMIXED asks that it has one); the
-				// direction rule is about ordinary values
-				ordinary := map[*ssa.BasicBlock]bool{}
-				var walkO func(b *ssa.BasicBlock)
-				walkO = func(b *ssa.BasicBlock) {
-					if ordinary[b] {
-						return
-					}
-					ordinary[b] = true
-					for si, sc := range b.Succs {
-						if f := ifOf(b); f != nil && si == 0 {
-							if bo, ok := f.Cond.(*ssa.BinOp); ok && bo.Op == token.NEQ && bo.X == bo.Y && (bo.X == lv || bo.X == rv) {
+				// decided by cases: for each relation of two ordinary operands (l < r, l == r, l > r) and each direction,
+				// the comparator is evaluated abstractly - comparisons of the two operands answered by the case, tests
+				// for NaN (x != x, math.IsNaN) answered `no`, the direction flag by the case - and every return that
+				// can be reached must be the constant the order asks for: -1 / 0 / +1 ascending, +1 / 0 / -1 descending.
+				// (What it answers for NaN is its choice; CMPMIXED asks that NaN has a place.)
+				bad := ""
+				for _, rel := range []string{"<", "=", ">"} {
+					for _, reversed := range []bool{false, true} {
+						want := map[string]int64{"<": -1, "=": 0, ">": 1}[rel]
+						if reversed {
+							want = -want
+						}
+						as := &assumption{p: p}
+						as.leaf = func(f *ssa.Function, v ssa.Value, bound map[*ssa.Parameter]string) (aval, bool) {
+							if f != fn {
+								return aval{}, false
+							}
+							tf := func(t bool) (aval, bool) {
+								if t {
+									return aval{kind: 2, b: abTrue}, true
+								}
+								return aval{kind: 2, b: abFalse}, true
+							}
+							if v == rev {
+								return tf(reversed)
+							}
+							if c, ok := v.(*ssa.Call); ok && p.calleeName(&c.Call) == "math.IsNaN" {
+								return tf(false)
+							}
+							bo, ok := v.(*ssa.BinOp)
+							if !ok {
+								return aval{}, false
+							}
+							x, y, op := bo.X, bo.Y, bo.Op
+							if x == y && (x == lv || x == rv) {
+								switch op {
+								case token.NEQ, token.LSS, token.GTR:
+									return tf(false)
+								case token.EQL, token.LEQ, token.GEQ:
+									return tf(true)
+								}
+							}
+							if x == rv && y == lv {
+								x, y, op = y, x, swapOp(op)
+							}
+							if x != lv || y != rv {
+								return aval{}, false
+							}
+							switch op {
+							case token.LSS:
+								return tf(rel == "<")
+							case token.LEQ:
+								return tf(rel != ">")
+							case token.GTR:
+								return tf(rel == ">")
+							case token.GEQ:
+								return tf(rel != "<")
+							case token.EQL:
+								return tf(rel == "=")
+							case token.NEQ:
+								return tf(rel != "=")
+							}
+							return aval{}, false
+						}
+						as.typeTest = func(*ssa.Function, *ssa.TypeAssert, map[*ssa.Parameter]string) (abool, bool) { return abBoth, false }
+						as.bind = func(*ssa.Function, ssa.Value, map[*ssa.Parameter]string) string { return "" }
+						res := as.run(fn, map[*ssa.Parameter]string{})
+						n := 0
+						for _, ret := range res.rets {
+							if len(ret.Results) != 1 {
 								continue
 							}
-						}
-						walkO(sc)
-					}
-				}
-				if len(fn.Blocks) > 0 {
-					walkO(fn.Blocks[0])
-				}
-				for _, b := range fn.Blocks {
-					ret := retOf(b)
-					if ret == nil || !ordinary[b] {
-						continue
-					}
-					c, isC := constInt(retVal(ret, 0))
-					if !isC {
-						bad = "result is not decided by this function's own comparison of its operands (e.g. delegated after a lossy conversion)"
-						continue
-					}
-					atoms := dominatingAtoms(b)
-					reversed, revKnown := false, false
-					var rel token.Token
-					for _, a := range atoms {
-						if a.X == rev {
-							if bv, isB := constBool(a.Y); isB {
-								revKnown = true
-								reversed = (a.Op == token.EQL) == bv
-							}
-						}
-						x, y, op := a.X, a.Y, a.Op
-						if x == rv && y == lv {
-							x, y, op = y, x, swapOp(op)
-						}
-						if x == lv && y == rv {
-							switch op {
-							case token.LSS, token.GTR, token.EQL:
-								rel = op
-							case token.LEQ:
-								if rel == 0 {
-									rel = token.LEQ
-								}
-							case token.GEQ:
-								if rel == 0 {
-									rel = token.GEQ
+							n++
+							got, isC := constInt(retVal(ret, 0))
+							if !isC {
+								if ev := res.ev(retVal(ret, 0)); ev.kind == 1 {
+									got, isC = ev.i, true
 								}
 							}
+							if !isC {
+								bad = fmt.Sprintf("for l %s r, reverse=%v the result at %s is not decided by this function's own comparison of its operands (e.g. delegated after a lossy conversion)", rel, reversed, p.InstrPos(ret))
+							} else if got != want {
+								bad = fmt.Sprintf("for l %s r, reverse=%v the comparator can return %d at %s (must be %d)", rel, reversed, got, p.InstrPos(ret), want)
+							}
+						}
+						if n == 0 {
+							bad = fmt.Sprintf("for l %s r, reverse=%v no return is reachable", rel, reversed)
 						}
 					}
-					switch c {
-					case 0:
-						if rel != token.EQL {
-							bad = "returns 0 although the operands are not known equal"
-						}
-					case -1:
-						sawMinus = true
-						if !revKnown {
-							bad = "a -1 result does not depend on the reverse flag"
-						} else if (!reversed && rel != token.LSS) || (reversed && rel != token.GTR) {
-							bad = fmt.Sprintf("returns -1 under reverse=%v and relation %s (must be l < r ascending, l > r descending)", reversed, rel)
-						}
-					case 1:
-						if revKnown && ((!reversed && rel == token.LSS) || (reversed && rel == token.GTR)) {
-							bad = "returns +1 where -1 is required"
-						}
-					}
-				}
-				if !sawMinus && bad == "" {
-					bad = "never returns -1 from a comparison of its own operands"
 				}
 				r.add(bad == "", key+"|direction", p.Pos(fn.Pos()), firstNonEmpty(bad, "comparator direction correct"))
 				continue
